@@ -43,6 +43,7 @@ class Gen:
         self.isview: dict[int, bool] = {}  # views (in NumPy's sense) of some other handle
         self.epoch_views: set[int] = set()
         self.readonly: set[int] = set()
+        self.scopes: list = []
 
     # ------------------------------------------------------------------ helpers
     def new(self):
@@ -550,6 +551,24 @@ class Gen:
             s["seed"] = seed
         self.prog.append(s)
 
+    # ------------------------------------------------------------------ scopes (C15)
+    def enter_scope(self, m):
+        self.prog.append({"k": "enter", "m": m})
+        self.scopes.append((m, set(self.np.H.keys())))
+
+    def exit_scope(self):
+        m, before = self.scopes.pop()
+        self.prog.append({"k": "exit", "m": m})
+        if m == "no_autodiff":
+            # tensors created without tracking that alias other tensors are two "leaves" over one memory:
+            # outside the reference's notion of a derivative w.r.t. a tensor's value -> dropped on exit
+            for h in sorted(set(self.np.H.keys()) - before):
+                if self.np.H[h].base is not None or any(
+                        o != h and np.shares_memory(self.np.H[h], self.np.H[o]) for o in self.np.H):
+                    self.prog.append({"k": "drop", "h": h})
+                    del self.np.H[h]
+                    self.epoch_views.discard(h)
+
     def end_epoch_drop_views(self):
         """v1 scope: views never survive an epoch boundary (DESIGN C04 'Blind')."""
         for h in sorted(self.epoch_views):
@@ -574,6 +593,13 @@ def gen_program(seed: int, profile: dict) -> list[dict]:
             x = rng.random()
             wf, wv, wi = profile.get("w_func", 0.5), profile.get("w_view", 0.3), profile.get("w_inplace", 0.2)
             tot = wf + wv + wi
+            ps = profile.get("p_scope", 0.0)
+            if ps and rng.random() < ps:
+                if g.scopes and rng.random() < 0.5:
+                    g.exit_scope()
+                elif len(g.scopes) < 3:
+                    g.enter_scope(rng.choice(profile.get("scopes", ["no_autodiff", "no_autodiff", "mem_guard_off", "mem_guard_on"])))
+                continue
             try:
                 if x < wf / tot:
                     ok = g.gen_functional()
@@ -584,6 +610,8 @@ def gen_program(seed: int, profile: dict) -> list[dict]:
             except GenSkip:
                 ok = False
             done += bool(ok)
+        while g.scopes:
+            g.exit_scope()
         if profile.get("backward", True):
             if rng.random() < profile.get("p_nonscalar_L", 0.0):
                 L = g.pick(lambda h: not g.const[h])
@@ -604,6 +632,8 @@ PROFILES = {
                 max_leaves=2, max_steps=8, p_const_leaf=0.15),
     "c06": dict(functional=["bin", "un", "red"], w_func=0.4, w_view=0.6, w_inplace=0.0, max_leaves=2, max_steps=7,
                 p_const_leaf=0.0),
+    "c15": dict(functional=["bin", "bin", "un", "red", "matmul", "gathercopy"], w_func=0.4, w_view=0.3, w_inplace=0.3,
+                max_leaves=2, max_steps=9, p_const_leaf=0.2, p_scope=0.3, max_epochs=2),
     "c07": dict(functional=["bin", "un", "red", "matmul"], w_func=0.5, w_view=0.3, w_inplace=0.2, max_leaves=2,
                 max_steps=5, max_epochs=3, p_const_leaf=0.1),
 }
